@@ -1596,7 +1596,10 @@ def constfold(fn):
                 ci = ir.unwrap(n["const_init"])
                 while isinstance(ci, dict) and ci.get("k") == "cast":
                     ci = ir.unwrap(ci["e"])
-                if isinstance(ci, dict) and ci.get("k") == "lit" and ci.get("t") != "str" and not isinstance(ci.get("v"), str) and (n.get("k") == "ref" or n.get("static")):
+                # ... and a named text constant that is a character array / constant pointer to a literal (`constexpr char key[] = "__default"`) as the literal
+                text_const = isinstance(ci, dict) and ci.get("k") == "lit" and ci.get("t") == "str" and n.get("k") == "ref" and n.get("storage") in ("namespace", "static_member", "static_local") \
+                    and re.match(r"^const char ?(\[\d+\]|\* ?const)$", n.get("type") or "") is not None
+                if text_const or (isinstance(ci, dict) and ci.get("k") == "lit" and ci.get("t") != "str" and not isinstance(ci.get("v"), str) and (n.get("k") == "ref" or n.get("static"))):
                     keep = {"ln": n.get("ln"), "type": n.get("type"), "bits": n.get("bits")}
                     lit = dict(ci)
                     n.clear()
